@@ -259,7 +259,18 @@ func (w *World) build(sc *Scenario, log *Log) {
 					w.log.add(e)
 				}
 			}
-			b.OnOpen(sc(LBrOpen)).OnHalfOpen(sc(LBrHalfOpen)).OnClose(sc(LBrClose)).OnStateChanged(sc(LBrStateChanged))
+			if p.NoListeners&1 == 0 {
+				b.OnOpen(sc(LBrOpen))
+			}
+			if p.NoListeners&2 == 0 {
+				b.OnHalfOpen(sc(LBrHalfOpen))
+			}
+			if p.NoListeners&4 == 0 {
+				b.OnClose(sc(LBrClose))
+			}
+			if p.NoListeners&8 == 0 {
+				b.OnStateChanged(sc(LBrStateChanged))
+			}
 			b.OnSuccess(w.onEvent(i, LPolSuccess)).OnFailure(w.onEvent(i, LPolFailure))
 			br := b.Build()
 			w.brs[i] = br
